@@ -11,7 +11,11 @@ LEVEL.update({
  "C18": ("The ProtocolMode -> record-type order table, the link between the iterated type, the question asked and the family filter of get_ip, the two destinations handed to query_nameserver (resolved ip + configured port; configured forwarder) and the plumbing of those values from the CLI to the sockets are decided as dataflow facts over every path. Nothing about routing below the socket API is claimed.", "3/C18"),
  "C19": ("The lock discipline that makes reload atomic is decided on every path: single write site, dominated by a successful load, one whole-value store through the guard, no await while the write guard is live, one read guard (or an owned snapshot) spanning resolve(), loader failure flag set on every error arm and never cleared. Timing of signals against in-flight queries is reduced to this discipline.", "3/C19"),
 })
+LEVEL.update({
+ "C06": ("The filter is decided structurally on every path of the validator: the six request/response conditions gate `true`; a reply is returned only behind that gate; every record admitted from a reply section is control-dependent on a test of its own owner; the CNAME admit-map is filled only by the chain walk and targets must agree; NS hosts/match name only for strictly closer ancestors; glue only for selected hosts and only from the permitted sections; only fields of the validator's result reach the cache. What an adversarial reply achieves beyond these gates is declined.", "3/C06"),
+})
 TECH = {
+ "C06": "custom MIR rules: CUT-REACH guard analysis keyed on the admitted record's own access path, arm tables per reply section, who-constructs, ORIGIN of cache-insert arguments",
  "C18": "custom MIR dataflow rules: arm-table extraction, ORIGIN of call arguments across await points, who-calls/who-constructs",
  "C19": "custom MIR rules: who-calls on the lock API, guard dominance, guard-liveness vs yield points (typestate over the CFG), must-pass-through on error arms",
  "C05": "custom MIR dataflow/dominance rules (rustc_private driver): who-calls, guard dominance (CUT-REACH), ORIGIN expression shape",
